@@ -60,6 +60,28 @@ CHECKS = {
     note='Names are opaque (==/hash), so the pool bounds distinct names. Each explored path fixes the int-coded choice vector (solver-checked) '
          'and runs the real code on it; explicit naming of an injected port is a stated don\'t-care. <=2 ports per side.',
     technique='symbolic path exploration (CrossHair + z3) over an int-coded configuration family, real code executed per path'),
+ 'C05': dict(
+    cat='model_checking', ref='DESIGN.md §3 C05',
+    text='The real parser run on every document of a bounded generated family (<=2/3 root items from a 65-item library covering every '
+         'declaration kind, unknown classes, non-dict elements, 1-2 id namespaces nested to depth 3, re-opened namespaces, reused names) '
+         'and compared with an independent walker over the document (per container: order, fully qualified names, parent scope, full payload); '
+         'plus symbolic identifiers and free-form payload strings (all unicode up to the bound) through the real parse functions.',
+    note='orjson byte decoding bypassed (decoded documents injected). Trusted: the reference walker/unparser in props/parser_common.py, CrossHair str/regex model.',
+    technique='symbolic path exploration (CrossHair + z3) over an int-coded document family + symbolic strings through the real parser'),
+ 'C15': dict(
+    cat='model_checking', ref='DESIGN.md §3 C15',
+    text='Every single fault (delete key / retag <class> / replace by 17 JSON values) at each of the 308 nodes of a rich well-formed document, '
+         'double faults in a sliding window, every string node replaced by a symbolic string, and the out-event rule (int-coded and with symbolic '
+         'direction/reply strings): the real parser returns FileContents or raises only DznJsonError / NamespaceIdsTypeError.',
+    note='orjson decoding bypassed; json_ast.print has an empty body during symbolic runs (printing realises symbolic values). Bounded to the listed fault kinds.',
+    technique='symbolic path exploration (CrossHair + z3) over fault positions/kinds + symbolic strings through the real parser'),
+ 'C16': dict(
+    cat='model_checking', ref='DESIGN.md §3 C16',
+    text='Every history of <=5/6 operations over two parser slots and three documents (construct with JSON bytes, process) executed on the real public '
+         'API: each process() result equals the parse of that document alone and earlier results never change; plus process() twice with symbolic '
+         'identifier/payload strings.',
+    note='History space enumerated by CrossHair path search (each path = one concrete history run natively incl. orjson). load_file() not exercised.',
+    technique='symbolic path exploration (CrossHair + z3) over operation histories of the real parser API'),
 }
 
 NOT_APPLICABLE = {
